@@ -132,6 +132,17 @@ A(t, op, x, y, z, k) ==
     [] op = "SubEqS"   -> OkX(0, Map1(x, LAMBDA e : e - k[1]))
     [] op = "MulEqS"   -> OkX(0, Map1(x, LAMBDA e : e * k[1]))
     [] op = "DivEqS"   -> OkX(0, Map1(x, LAMBDA e : TruncDiv(e, k[1])))
+    \* mixed types: the header's additive forms convert the scalar first, the others work in the common type
+    [] op \in {"AddSQ", "SAddQ"} -> Ok(Map1(x, LAMBDA e : e + TruncDiv(k[1], 4)))
+    [] op = "SubSQ"    -> Ok(Map1(x, LAMBDA e : e - TruncDiv(k[1], 4)))
+    [] op = "SSubQ"    -> Ok(Map1(x, LAMBDA e : TruncDiv(k[1], 4) - e))
+    [] op \in {"MulSQ", "SMulQ"} -> Ok(Map1(x, LAMBDA e : TruncDiv(e * k[1], 4)))
+    [] op = "DivSQ"    -> Ok(Map1(x, LAMBDA e : TruncDiv(4 * e, k[1])))
+    [] op = "SDivQ"    -> Ok(Map1(x, LAMBDA e : TruncDiv(k[1], 4 * e)))
+    [] op = "AddEqSQ"  -> OkX(0, Map1(x, LAMBDA e : TruncDiv(4 * e + k[1], 4)))
+    [] op = "SubEqSQ"  -> OkX(0, Map1(x, LAMBDA e : TruncDiv(4 * e - k[1], 4)))
+    [] op = "MulEqSQ"  -> OkX(0, Map1(x, LAMBDA e : TruncDiv(e * k[1], 4)))
+    [] op = "DivEqSQ"  -> OkX(0, Map1(x, LAMBDA e : TruncDiv(4 * e, k[1])))
     \* the scalar is copied before the loop
     [] op = "AddEqE"   -> LET c0 == x[k[1] + 1] IN OkX(0, Map1(x, LAMBDA e : e + c0))
     [] op = "SubEqE"   -> LET c0 == x[k[1] + 1] IN OkX(0, Map1(x, LAMBDA e : e - c0))
@@ -205,6 +216,8 @@ A(t, op, x, y, z, k) ==
 Pre(op, x, y, z, k) ==
   CASE op \in {"DivS", "DivEqS"} -> k[1] # 0
     [] op = "SDiv"               -> 0 \notin SetOf(x)
+    [] op \in {"DivSQ", "DivEqSQ"} -> k[1] # 0
+    [] op = "SDivQ"              -> 0 \notin SetOf(x)
     [] op \in {"AddEqE", "SubEqE", "MulEqE"} -> k[1] \in 0..(Len(x) - 1)
     [] op = "DivEqE"             -> k[1] \in 0..(Len(x) - 1) /\ x[k[1] + 1] # 0
     [] op \in {"Div", "DivEq"}   -> 0 \notin SetOf(y)
@@ -231,6 +244,16 @@ Pre(op, x, y, z, k) ==
          /\ nz = 1 \/ pre = 1            \* weights not summing to one are only meaningful with normalisation
          /\ k[Len(k)] \in {0} \cup 20..40  \* last entry: exponent of the power-of-two offset added to the data
     [] OTHER                     -> TRUE
+
+
+\* type-dependent part of the domain: a double vector meets an int scalar (k[1]/4 whole), and a real
+\* quotient is only encodable when it is exact
+QOps == {"AddSQ", "SAddQ", "SubSQ", "SSubQ", "MulSQ", "SMulQ", "DivSQ", "SDivQ", "AddEqSQ", "SubEqSQ", "MulEqSQ", "DivEqSQ"}
+PreT(t, op, x, k) ==
+  (op \in QOps /\ t = "double") =>
+     /\ k[1] % 4 = 0
+     /\ op \in {"DivSQ", "DivEqSQ"} => \A i \in Idx(x) : (4 * AbsI(x[i])) % AbsI(k[1]) = 0
+     /\ op = "SDivQ" => \A i \in Idx(x) : AbsI(k[1]) % (4 * AbsI(x[i])) = 0
 
 \* the transcription of op on these arguments is accepted by the judge
 Conforms(t, op, x, y, z, k) ==
